@@ -6,7 +6,7 @@ import VaxisModel.Model.Vxfw
 hypothesis `stuck = false` of `commands_once_history` cannot be dropped for all handler behaviours; on the
 real code the recursion ends in Go's fatal `stack overflow` (the process dies; `recover` does not help).
 The replay (subprocess, see notes/C15.md) shows exactly that.  Handlers whose focus commands are
-well-founded never get there (not proved here: see the open items of notes/C15.md). -/
+well-founded (no focus command in an answer to FocusIn / FocusOut: `Props.C15.commands_once_history_wf`, `Lemmas.Vxfw.run_never_stuck`) never get there with any budget ≥ 2. -/
 namespace VaxisModel.Witness.F115c
 open VaxisModel.Model.Vxfw
 
